@@ -45,6 +45,9 @@ pub struct RepScenario {
     /// F-stale: longer output files of an earlier run exist at the output path before every
     /// non-reference execution
     pub stale_output: bool,
+    /// 0 = info (as the CLI without -v), 1 = debug, 2 = trace: the pipeline's debug!/trace!
+    /// statements are then evaluated inside the simulated execution as well
+    pub log_level: u64,
 }
 
 impl RepScenario {
@@ -65,6 +68,7 @@ impl RepScenario {
             .set("max_step_size", J::f64bits(self.max_step_size))
             .set("convergence", J::opt_f64bits(self.convergence))
             .set("stale_output", J::Bool(self.stale_output))
+            .set("log_level", J::uint(self.log_level))
     }
     pub fn from_json(j: &J) -> Result<RepScenario, String> {
         let f = |k: &str| j.get(k).and_then(|x| x.as_f64bits());
@@ -89,6 +93,7 @@ impl RepScenario {
             max_step_size: f("max_step_size").ok_or("max_step_size")?,
             convergence: f("convergence"),
             stale_output: j.get("stale_output").and_then(|x| x.as_bool()).unwrap_or(false),
+            log_level: u("log_level").unwrap_or(0),
         })
     }
 
@@ -134,6 +139,7 @@ pub fn gen_rep_scenario(rng: &mut sim_core::prng::Rng, max_replicas: u64) -> Rep
         max_step_size: *rng.pick(&[0.01, 0.1, 0.5]),
         convergence: *rng.pick(&[None, None, Some(1e-6)]),
         stale_output: rng.chance(0.3),
+        log_level: *rng.pick(&[0u64, 0, 0, 1, 2]),
     }
 }
 
@@ -146,12 +152,13 @@ std::thread_local! {
 
 struct CaptureLogger;
 impl log::Log for CaptureLogger {
-    fn enabled(&self, m: &log::Metadata) -> bool {
-        m.level() <= log::Level::Info
+    fn enabled(&self, _m: &log::Metadata) -> bool {
+        true
     }
     fn log(&self, r: &log::Record) {
+        // every enabled record is formatted (as env_logger would), info records are kept
+        let line = format!("{}", r.args());
         if r.level() <= log::Level::Info {
-            let line = format!("{}", r.args());
             LOG_LINES.with(|l| l.borrow_mut().push(line));
         }
     }
@@ -210,6 +217,12 @@ fn scratch_dir() -> PathBuf {
 }
 
 fn run_once(sc: &RepScenario, dir: &PathBuf, stale: bool) -> PipeResult {
+    // (scenarios run in their own process, so the process-wide level is this scenario's)
+    log::set_max_level(match sc.log_level {
+        0 => log::LevelFilter::Info,
+        1 => log::LevelFilter::Debug,
+        _ => log::LevelFilter::Trace,
+    });
     let mut res = PipeResult::default();
     LOG_LINES.with(|l| l.borrow_mut().clear());
     let out = dir.join("out");
